@@ -8,6 +8,7 @@ import (
 	"sort"
 	"strconv"
 	"sync"
+	"sync/atomic"
 	"testing"
 
 	"github.com/bytemare/secp256k1/verifharness/gen"
@@ -27,6 +28,24 @@ type Case struct {
 	// operand's value (admission on second use, eviction, slot recycling) does wrong only shows once the working set exceeds it.
 	Ring int `json:"ring,omitempty"`
 	Dup  int `json:"dup,omitempty"`
+	// Churn: the runtime as part of the environment. Another goroutine runs garbage collections back to back while the calls are
+	// made, and every Churn calls the calling goroutine first grows its stack (a deep recursion) and returns to a shallow frame,
+	// so that the collector shrinks - moves - the stack under the calls that follow. Go code that is correct is oblivious to
+	// both; code that smuggles an address through an integer, keeps a pointer the collector does not see or relies on an object
+	// not moving is not.
+	Churn int `json:"churn,omitempty"`
+}
+
+// inflate makes the calling goroutine's stack large (about 300 bytes per level).
+//
+//go:noinline
+func inflate(depth int) int {
+	var pad [256]byte
+	pad[depth%256] = byte(depth)
+	if depth == 0 {
+		return int(pad[0])
+	}
+	return inflate(depth-1) + int(pad[depth%7])
 }
 
 // Variant is one table entry of an operation: a call with fixed operands that returns an error text when the result
@@ -91,6 +110,28 @@ func (s *Suite) run(c Case, o *gen.Obs) error {
 			}
 			if msg := tab[idx](); msg != "" {
 				return gen.Fail("endurance/"+c.Op, "call number %d of %s in this process (operand %d of a ring of %d distinct operands, each used %d times in a row, round %d): %s", i+1, c.Op, idx, c.Ring, dup, i/(dup*c.Ring)+1, msg)
+			}
+		}
+		return nil
+	}
+	if c.Churn > 0 {
+		o.Class("stack-and-gc-churn")
+		var stop atomic.Bool
+		done := make(chan struct{})
+		go func() {
+			defer close(done)
+			for !stop.Load() {
+				runtime.GC()
+			}
+		}()
+		defer func() { stop.Store(true); <-done }()
+		tab := def.Build()
+		for i := 0; i < c.N; i++ {
+			if i%c.Churn == 0 {
+				inflate(2000)
+			}
+			if msg := tab[(i+c.Offset)%len(tab)](); msg != "" {
+				return gen.Fail("endurance/"+c.Op, "call number %d of %s in this process, while another goroutine runs garbage collections and this goroutine's stack was grown and released every %d calls: %s", i+1, c.Op, c.Churn, msg)
 			}
 		}
 		return nil
@@ -192,6 +233,17 @@ func (s *Suite) Execute(t *testing.T) {
 			cases = append(cases, Case{Op: name, N: n, Offset: shard, Par: par})
 			if def.Special == nil {
 				cases = append(cases, Case{Op: name, N: n, Offset: shard * 5, Par: par, Hot: true})
+			}
+			if def.Special == nil {
+				// (what counts is the number of times the collector shrinks the stack under a call: one per collection at most, so the
+				// calls must span many collections and the stack must be grown again between any two of them)
+				churn, cn := 256, n
+				if def.Cost == 2 {
+					churn, cn = 64, n/4
+				} else if def.Cost >= 3 {
+					churn, cn = 16, n/4
+				}
+				cases = append(cases, Case{Op: name, N: max(300, cn), Offset: shard * 3, Churn: churn})
 			}
 			if def.Wide != nil {
 				rings := []int{1<<8 + 1, 1<<12 + 1}
